@@ -41,25 +41,26 @@ import (
 
 // Step is one scenario step; the fields mirror the `hist` records of spec/Verifier.tla.
 type Step struct {
-	Op    string   `json:"op"`
-	N     int      `json:"n,omitempty"`
-	From  int      `json:"from,omitempty"`
-	First uint64   `json:"first,omitempty"`
-	Term  uint64   `json:"term,omitempty"`
-	Kinds []string `json:"kinds,omitempty"`
-	Fail  bool     `json:"fail,omitempty"`
-	K     int      `json:"k,omitempty"`
-	Cp    int      `json:"cp,omitempty"` // position in the batch hit by in-flight corruption (0 = none)
-	Cf    string   `json:"cf,omitempty"`
-	Cm    string   `json:"cm,omitempty"`
-	Min   uint64   `json:"min,omitempty"`
-	Max   uint64   `json:"max,omitempty"`
-	To    uint64   `json:"to,omitempty"`
-	Last  uint64   `json:"last,omitempty"`
-	I     uint64   `json:"i,omitempty"`
-	F     string   `json:"f,omitempty"`
-	M     string   `json:"m,omitempty"`
-	Ok    bool     `json:"ok,omitempty"` // what the model expected (diagnostic only)
+	Op        string   `json:"op"`
+	N         int      `json:"n,omitempty"`
+	From      int      `json:"from,omitempty"`
+	First     uint64   `json:"first,omitempty"`
+	Term      uint64   `json:"term,omitempty"`
+	Kinds     []string `json:"kinds,omitempty"`
+	Fail      bool     `json:"fail,omitempty"`
+	K         int      `json:"k,omitempty"`
+	Cp        int      `json:"cp,omitempty"`        // position in the batch hit by in-flight corruption (0 = none)
+	FailAfter bool     `json:"failafter,omitempty"` // trunctail / trunchead: the store removes the range, then reports an error
+	Cf        string   `json:"cf,omitempty"`
+	Cm        string   `json:"cm,omitempty"`
+	Min       uint64   `json:"min,omitempty"`
+	Max       uint64   `json:"max,omitempty"`
+	To        uint64   `json:"to,omitempty"`
+	Last      uint64   `json:"last,omitempty"`
+	I         uint64   `json:"i,omitempty"`
+	F         string   `json:"f,omitempty"`
+	M         string   `json:"m,omitempty"`
+	Ok        bool     `json:"ok,omitempty"` // what the model expected (diagnostic only)
 }
 
 // Scenario is a list of steps plus how to concretise it.
@@ -376,7 +377,10 @@ type hook struct {
 	raft.LogStore
 	nd       *node
 	failNext bool
-	closer   io.Closer
+	// failDelAfter: the next DeleteRange removes the range and THEN reports an error (a store that fails after it has
+	// applied the call - the caller cannot know how far it got)
+	failDelAfter bool
+	closer       io.Closer
 }
 
 func (h *hook) StoreLogs(logs []*raft.Log) error {
@@ -402,6 +406,10 @@ func (h *hook) DeleteRange(min, max uint64) error {
 			if i >= min && i <= max {
 				delete(h.nd.written, i)
 			}
+		}
+		if h.failDelAfter {
+			h.failDelAfter = false
+			return errors.New("injected DeleteRange failure (after the range was removed)")
 		}
 	}
 	return err
@@ -854,8 +862,12 @@ func (r *run) store(nd *node, logs []*raft.Log, role string, srcKeys [][2]uint64
 }
 
 func (r *run) del(nd *node, min, max uint64, kind string) {
+	injected := nd.hk.failDelAfter
 	err := nd.mw.DeleteRange(min, max)
 	terr := nd.twin.DeleteRange(min, max)
+	if injected && terr == nil {
+		terr = errors.New("the same injected failure") // the twin is the same store with the same fault: removed, error
+	}
 	ev := map[string]any{"ev": "del", "n": nd.id, "min": r.in.num(min), "max": r.in.num(max), "kind": kind,
 		"res": okErr(err), "tres": okErr(terr), "vstate": nd.state}
 	r.out.emit(ev)
@@ -1009,7 +1021,9 @@ func (r *run) step(st Step) error {
 	case "leader", "take":
 		// bookkeeping of the model only
 	case "trunctail", "trunchead":
+		nd.hk.failDelAfter = st.FailAfter
 		r.del(nd, st.Min, st.Max, st.Op)
+		nd.hk.failDelAfter = false
 		r.probe(nd)
 	case "snap":
 		first, _ := nd.mw.FirstIndex()
